@@ -210,6 +210,15 @@ func TestCheck(t *testing.T) {
 	r := mc.New("C11", "model_checking")
 	depth := mc.Pick(r, 6, 8)
 	if f := mc.ReplayFile(); f != "" {
+		var rr routingReplay
+		if err := mc.LoadReplay(f, &rr); err == nil && rr.Family == "routing" {
+			clause, what, _ := runRouting(t, rr.Indices, ralphabet())
+			fmt.Printf("routing history %v -> %s %s\n", rr.History, clause, what)
+			if clause != "" {
+				t.Fail()
+			}
+			return
+		}
 		var rp mc.BFSReplay
 		if err := mc.LoadReplay(f, &rp); err != nil || rp.Model == "" {
 			fmt.Println("replay: schedule findings carry their trace in the replay file")
@@ -229,11 +238,17 @@ func TestCheck(t *testing.T) {
 		})
 		return
 	}
-	r.Rule = fmt.Sprintf("explicit-state BFS to depth %d over histories of {req(i), resp(i) for two transaction slots, reload (new policies file + ReloadFromFile), revert, revert-diagnosis-free, tick(1s|5s|24s|31s)} on the real TxnPoliciesAccessor with its real vacuum goroutines in virtual time; plus schedules of request-vs-reload, reload-vs-reload(+pinned transaction), response-vs-vacuum; distinct = state keys (accessor dump + slot ages)", depth)
+	r.Rule = fmt.Sprintf("explicit-state BFS to depth %d over histories of {req(i), resp(i) for two transaction slots, reload (new policies file + ReloadFromFile), revert, revert-diagnosis-free, tick(1s|5s|24s|31s)} on the real TxnPoliciesAccessor with its real vacuum goroutines in virtual time; plus every history to depth 6 (7 thorough) of the real routing message handlers over {request, 503 response of three transactions incl. a retry attempt whose id differs from its sequence id, reload with/without the retry remedy}; plus schedules of request-vs-reload, reload-vs-reload(+pinned transaction), response-vs-vacuum; distinct = state keys (accessor dump + slot ages)", depth)
 	r.Assume("HAProxy admin API replaced by an always-200 in-process RoundTripper", "retention asserted for responses up to exactly 30 s after the first look-up")
 	if r.Parallel(t, 16) {
 		r.Finish(t)
 		return
+	}
+	t0 := time.Now()
+	phase := func(n string) {
+		if os.Getenv("VERIF_DEBUG") != "" {
+			fmt.Fprintf(os.Stderr, "PHASE %s at %v\n", n, time.Since(t0))
+		}
 	}
 	for first := range alpha {
 		if !r.Mine(first) {
@@ -257,7 +272,11 @@ func TestCheck(t *testing.T) {
 		}
 	}
 	r.Add("traces_validated_against_impl", r.Counters["transitions"])
+	phase("bfs done")
+	routingFamily(t, r)
+	phase("routing done")
 	schedules(t, r)
+	phase("schedules done")
 	r.Finish(t)
 }
 
